@@ -8,6 +8,9 @@ A gate is described by a small tuple (its *descriptor*):
     ("Q", name)              user-defined QuantumGate(name, n_qubits, array) from the CUSTOM table below
     ("Z", z_tuple | None, root_tuple | None, data)   the square-root scalar sqrt(data) (gates.Sqrt); in exact
                              mode data = root², both given as cyc8 tuples, root = the principal root
+    ("U", g)                 g (a Ket / Bra / rotation / scalar / sqrt descriptor) built as an instance of a
+                             TRIVIAL USER SUBCLASS of its class (`class MyRz(Rz): pass`): the same gate for
+                             every `isinstance` test and for evaluation, a different `type(box)`
 `build` makes the discopy object the way a user would, `tok` the driver tokens (exact mode only),
 `std_io` the INDEPENDENT textbook matrix of the map in discopy's [input, output] order (transpose of
 the usual U[out][in]); nothing in `std_io` calls discopy.
@@ -124,11 +127,15 @@ def std_io(g):
         return np.array([[cmath.sqrt(complex(g[3]))]], dtype=complex)     # the principal root
     if k == "Q":
         return CUSTOM[g[1]].copy()
+    if k == "U":
+        return std_io(g[1])
     raise KeyError(k)
 
 
 def arity(g):
     k = g[0]
+    if k == "U":
+        return arity(g[1])
     if k == "N":
         return (1, 1) if g[1] in NAMED1 else (2, 2)
     if k == "W":
@@ -150,10 +157,33 @@ def arity(g):
     return (0, 0)
 
 
+_SUBCLASSES = {}
+
+
+def user_subclass(cls):
+    """`class My<cls>(cls): pass` — what a user writes to give a gate a name of their own."""
+    if cls not in _SUBCLASSES:
+        _SUBCLASSES[cls] = type("My" + cls.__name__, (cls,), {"__doc__": "trivial user subclass"})
+    return _SUBCLASSES[cls]
+
+
 def build(g):
     """The discopy object, built through the public API."""
     from discopy.quantum import gates
     k = g[0]
+    if k == "U":
+        b = g[1]
+        if b[0] == "K":
+            return user_subclass(gates.Ket)(*b[1])
+        if b[0] == "B":
+            return user_subclass(gates.Bra)(*b[1])
+        if b[0] == "R":
+            return user_subclass(getattr(gates, b[1]))(b[3])
+        if b[0] == "S":
+            return user_subclass(gates.Scalar)(b[2])
+        if b[0] == "Z":
+            return user_subclass(gates.Sqrt)(b[3])
+        raise KeyError(b[0])
     if k == "N":
         return getattr(gates, g[1])
     if k == "W":
@@ -179,6 +209,8 @@ def build(g):
 
 def tok(g):
     k = g[0]
+    if k == "U":
+        return tok(g[1])                  # the model has no classes: the gate the subclass IS
     if k == "N":
         return "N " + g[1]
     if k == "W":
@@ -208,6 +240,11 @@ def tok(g):
 
 def show(g):
     k = g[0]
+    if k == "U":
+        b = g[1]
+        cls = {"K": "Ket", "B": "Bra", "S": "Scalar", "Z": "Sqrt"}.get(b[0]) or b[1]
+        args = show(b)
+        return "My%s(%s  [class My%s(%s): pass]" % (cls, args[args.index("(") + 1:], cls, cls)
     if k == "N":
         return g[1]
     if k == "W":
@@ -250,6 +287,8 @@ def kinds(g):
         return [g[1]]
     if k == "Q":
         return ["QuantumGate%d" % CUSTOM_NQ[g[1]]]
+    if k == "U":
+        return ["user-subclass"] + kinds(g[1])
     return [{"K": "Ket", "B": "Bra", "S": "scalar", "Z": "sqrt"}[k]]
 
 
